@@ -238,6 +238,21 @@ Proof.
   - (* DMissing *) reflexivity.
 Qed.
 
+(** The corner the transcription exposes: the dispatch key is ABSENT under [o1] (the dispatch
+    fails and the unwrapped default is used, or an Option default supplies the dispatch value —
+    either way the key is not in the fingerprint) and PRESENT under [o2] with a dispatch that
+    succeeded: the two fingerprints are different, whatever else the implementations read. *)
+Lemma absent_present_fp_differ : forall e k v o1 o2 ks1 ks2 f,
+  dkey e = Some k -> assoc k o1 = None -> assoc k o2 = Some v ->
+  incl (dkeys e o2) ks2 ->
+  mk_fp o1 ks1 = Some f -> mk_fp o2 ks2 = Some f -> False.
+Proof.
+  intros e k v o1 o2 ks1 ks2 f Hk A1 A2 Hin F1 F2.
+  destruct (fp_shared_key o2 o1 ks2 ks1 f k F2 F1) as [v' [_ E]].
+  - apply Hin. apply (dkeys_present e o2 k v Hk A2).
+  - congruence.
+Qed.
+
 (** * Evaluation *)
 
 Section Sem.
@@ -1291,5 +1306,900 @@ Section Sem.
     pose proof (dispatch_spec f d o s r s' rc ov He Hds Hov Hst) as D.
     unfold pick in D. rewrite Hd in D.
     unfold binding, ovl_of in Bs. rewrite Hds, Hov in Bs. rewrite Bs in D. exact D.
+  Qed.
+
+  (** * The evaluation history: what every cache entry and every served value comes from *)
+
+  (** the record is truthful: its fingerprint is the fingerprint of its options and keys, its
+      dispatch outcome is the dispatch's value on its options, and the keys of a successful
+      dispatch are among its keys *)
+  Definition ev_ok (e : event) : Prop :=
+    mk_fp (e_opts e) (e_keys e) = Some (e_fp e) /\
+    e_dres e = deval (e_disp e) (e_opts e) /\
+    (forall a, e_dres e = DVal a -> incl (dkeys (e_disp e) (e_opts e)) (e_keys e)).
+
+  (** the record's dataset exists, uses the record's cache, and a computed value is that
+      dataset's callback applied to the implementation's raw result *)
+  Definition ev_owner (s : state) (e : event) : Prop :=
+    exists rc, get_ds s (e_ds e) = Some rc /\ d_cache rc = e_cache e /\
+      (e_hit e = false -> exists w, e_raw e = Some w /\ e_val e = CB (d_cb rc) w).
+
+  Definition cache_explained (s : state) : Prop :=
+    forall c f v, cache_get s c f = Some v ->
+      exists e, In e (st_trace s) /\ e_hit e = false /\ e_cache e = c /\ e_fp e = f /\ e_val e = v.
+
+  Definition explains (e1 e : event) : Prop :=
+    e_hit e1 = false /\ e_cache e1 = e_cache e /\ e_fp e1 = e_fp e /\ e_val e1 = e_val e.
+
+  (** every served value was stored by an EARLIER evaluation under the same fingerprint *)
+  Fixpoint hits_explained (tr : list event) : Prop :=
+    match tr with
+    | [] => True
+    | e :: tr' => (e_hit e = true -> exists e1, In e1 tr' /\ explains e1 e) /\ hits_explained tr'
+    end.
+
+  Definition tinv (s : state) : Prop :=
+    Forall ev_ok (st_trace s) /\ Forall (ev_owner s) (st_trace s) /\
+    cache_explained s /\ hits_explained (st_trace s).
+
+  Lemma tinv_empty : tinv (@empty_state V).
+  Proof.
+    split; [constructor|]. split; [constructor|]. split; [|exact I].
+    intros c f v H. discriminate.
+  Qed.
+
+  Definition ds_ext (s s' : state) : Prop :=
+    forall d rc, get_ds s d = Some rc ->
+      exists rc', get_ds s' d = Some rc' /\ d_cache rc' = d_cache rc /\ d_cb rc' = d_cb rc.
+
+  Lemma ds_ext_refl : forall s, ds_ext s s.
+  Proof. intros s d rc H. exists rc. repeat split. exact H. Qed.
+
+  Lemma ds_ext_eq : forall s s', st_ds s' = st_ds s -> ds_ext s s'.
+  Proof. intros s s' E d rc H. exists rc. unfold get_ds. rewrite E. repeat split. exact H. Qed.
+
+  Lemma ev_owner_ext : forall s s' e, ds_ext s s' -> ev_owner s e -> ev_owner s' e.
+  Proof.
+    intros s s' e X [rc [A [B C]]]. destruct (X _ _ A) as [rc' [A' [B' C']]].
+    exists rc'. split; [exact A'|]. split; [congruence|]. rewrite C'. exact C.
+  Qed.
+
+  Lemma Forall_owner_ext : forall s s' l, ds_ext s s' -> Forall (ev_owner s) l -> Forall (ev_owner s') l.
+  Proof.
+    intros s s' l X H. induction H; constructor; [eapply ev_owner_ext; eassumption | assumption].
+  Qed.
+
+  (** operations that touch neither caches nor the history keep the invariant *)
+  Lemma tinv_frame : forall s s',
+    st_cache s' = st_cache s -> st_trace s' = st_trace s -> ds_ext s s' -> tinv s -> tinv s'.
+  Proof.
+    intros s s' Ec Et X [T1 [T2 [T3 T4]]]. unfold tinv. rewrite Et.
+    split; [exact T1|]. split; [eapply Forall_owner_ext; eassumption|]. split; [|exact T4].
+    intros c f v H. unfold cache_get, cache_of in H. rewrite Ec in H.
+    destruct (T3 c f v H) as [e He]. exists e. rewrite Et. exact He.
+  Qed.
+
+  Lemma eval_tinv : forall f d o s r s', EVAL f d o s = Some (r, s') -> tinv s -> tinv s'.
+  Proof.
+    induction f as [|f IH]; intros d o s r s' H T; [discriminate|].
+    assert (IR : forall i o0 r0 s1, impl_run f i o0 s = Some (r0, s1) -> tinv s1 /\ same_struct s s1).
+    { intros i o0 r0 s1 Hi. destruct i as [g|d']; simpl in Hi.
+      - inversion Hi. subst. split; [exact T | apply same_struct_refl].
+      - split; [eapply IH; eassumption | eapply eval_struct; eassumption]. }
+    apply eval_inv in H. ecases H; try exact T.
+    - (* served from the cache *)
+      destruct T as [T1 [T2 [T3 T4]]].
+      split; [|split; [|split]].
+      + simpl. constructor; [|exact T1]. unfold ev_ok. simpl.
+        split; [exact Hfp|]. split; [reflexivity|]. intros a Ha. eapply sw_keys_dkeys; eassumption.
+      + simpl. constructor.
+        * exists rc. simpl. split; [exact Hds|]. split; [reflexivity|]. discriminate.
+        * eapply Forall_owner_ext; [|exact T2]. apply ds_ext_eq. reflexivity.
+      + intros c f0 v0 Hg. rewrite cache_get_log in Hg. destruct (T3 c f0 v0 Hg) as [e [A B]].
+        exists e. split; [right; exact A | exact B].
+      + simpl. split; [|exact T4]. intros _.
+        destruct (T3 _ _ _ Hc) as [e1 [A [B [C [D E]]]]]. exists e1. split; [exact A|].
+        unfold explains. simpl. repeat split; assumption.
+    - (* the implementation failed *)
+      apply (IR _ _ _ _ Hi).
+    - (* computed and stored *)
+      destruct (IR _ _ _ _ Hi) as [[T1 [T2 [T3 T4]]] Hs].
+      assert (Eds : st_ds s1 = st_ds s) by (destruct Hs as [A _]; exact A).
+      split; [|split; [|split]].
+      + simpl. constructor; [|exact T1]. unfold ev_ok. simpl.
+        split; [exact Hfp|]. split; [reflexivity|]. intros a Ha. eapply sw_keys_dkeys; eassumption.
+      + simpl. constructor.
+        * exists rc. simpl. split; [unfold get_ds; simpl; rewrite Eds; exact Hds|].
+          split; [reflexivity|]. intros _. exists x. split; reflexivity.
+        * eapply Forall_owner_ext; [|exact T2]. apply ds_ext_eq. reflexivity.
+      + intros c f0 v0 Hg. rewrite cache_get_log, cache_get_set in Hg.
+        destruct (N.eqb c (d_cache rc) && fp_eqb f0 fpr) eqn:E.
+        * apply andb_true_iff in E. destruct E as [E1 E2]. apply N.eqb_eq in E1. apply fp_eqb_eq in E2.
+          inversion Hg. subst. eexists. split; [left; reflexivity|]. simpl. repeat split.
+        * destruct (T3 c f0 v0 Hg) as [e [A B]]. exists e. split; [right; exact A | exact B].
+      + simpl. split; [discriminate | exact T4].
+  Qed.
+
+  (** callbacks are per cache: datasets sharing a cache (a dataset and its with_options
+      derivatives) have the same callback *)
+  Definition cbc (s : state) : Prop :=
+    forall d1 d2 r1 r2, get_ds s d1 = Some r1 -> get_ds s d2 = Some r2 ->
+      d_cache r1 = d_cache r2 -> d_cb r1 = d_cb r2.
+
+  Lemma cbc_empty : cbc (@empty_state V).
+  Proof. intros d1 d2 r1 r2 H. discriminate. Qed.
+
+  Lemma cbc_eq : forall s s', st_ds s' = st_ds s -> cbc s -> cbc s'.
+  Proof. intros s s' E C d1 d2 r1 r2 H1 H2. unfold get_ds in *. rewrite E in *. eapply C; eassumption. Qed.
+
+  Lemma new_ds_cbc : forall s d e dflt cb, wf s -> cbc s -> cbc (new_ds s d e dflt cb).
+  Proof.
+    intros s d e dflt cb W C d1 d2 r1 r2 H1 H2 Ec. rewrite new_ds_get_ds in H1, H2.
+    destruct (N.eqb d1 d); destruct (N.eqb d2 d).
+    - congruence.
+    - inversion H1. subst. simpl in Ec. destruct (W d2 r2 H2) as [_ [B _]]. lia.
+    - inversion H2. subst. simpl in Ec. destruct (W d1 r1 H1) as [_ [B _]]. lia.
+    - eapply C; eassumption.
+  Qed.
+
+  Lemma set_dispatch_get_ds : forall (s : state) d e d' rc',
+    get_ds (set_dispatch s d e) d' = Some rc' ->
+    exists rc, get_ds s d' = Some rc /\ d_cache rc' = d_cache rc /\ d_cb rc' = d_cb rc.
+  Proof.
+    intros s d e d' rc' H. unfold set_dispatch in H.
+    destruct (get_ds s d) as [rc|] eqn:Hd; [|exists rc'; repeat split; exact H].
+    destruct (get_ovl s (d_ovl rc)); [|exists rc'; repeat split; exact H].
+    unfold get_ds in H. simpl in H. rewrite assoc_upd in H. destruct (N.eqb d' d) eqn:E.
+    - apply N.eqb_eq in E. subst. inversion H. subst. exists rc. repeat split. exact Hd.
+    - exists rc'. repeat split. exact H.
+  Qed.
+
+  Lemma set_dispatch_cbc : forall s d e, cbc s -> cbc (set_dispatch s d e).
+  Proof.
+    intros s d e C d1 d2 r1 r2 H1 H2 Ec.
+    destruct (set_dispatch_get_ds _ _ _ _ _ H1) as [q1 [A1 [B1 C1]]].
+    destruct (set_dispatch_get_ds _ _ _ _ _ H2) as [q2 [A2 [B2 C2]]].
+    rewrite C1, C2. eapply C; try eassumption. congruence.
+  Qed.
+
+  Lemma set_dispatch_ext : forall (s : state) d e, ds_ext s (set_dispatch s d e).
+  Proof.
+    intros s d e d' rc' H. unfold set_dispatch.
+    destruct (get_ds s d) as [rc|] eqn:Hd; [|exists rc'; repeat split; exact H].
+    destruct (get_ovl s (d_ovl rc)); [|exists rc'; repeat split; exact H].
+    unfold get_ds. simpl. rewrite assoc_upd. destruct (N.eqb d' d) eqn:E.
+    - apply N.eqb_eq in E. subst. rewrite Hd in H. inversion H. subst. eexists. repeat split.
+    - exists rc'. repeat split. exact H.
+  Qed.
+
+  Lemma new_ds_ext : forall (s : state) d e dflt cb, has_key d (st_ds s) = false -> ds_ext s (new_ds s d e dflt cb).
+  Proof.
+    intros s d e dflt cb K d' rc' H. rewrite new_ds_get_ds. destruct (N.eqb d' d) eqn:E.
+    - apply N.eqb_eq in E. subst. apply has_key_false in K. unfold get_ds in H. congruence.
+    - exists rc'. repeat split. exact H.
+  Qed.
+
+  Lemma ds_ext_trans : forall a b c, ds_ext a b -> ds_ext b c -> ds_ext a c.
+  Proof.
+    intros a b c X Y d rc H. destruct (X d rc H) as [rc1 [A [B C]]].
+    destruct (Y d rc1 A) as [rc2 [A' [B' C']]]. exists rc2. split; [exact A'|]. split; congruence.
+  Qed.
+
+  (** members being added: fresh identifiers stay fresh w.r.t. what was there before *)
+  Lemma add_members_inv : forall ms s e,
+    wf s -> cbc s -> nodupN (map (fun m => mk_id (snd m)) ms) = true ->
+    (forall m, In m ms -> is_new (snd m) = true -> has_key (mk_id (snd m)) (st_ds s) = false) ->
+    cbc (add_members s e ms) /\ ds_ext s (add_members s e ms) /\
+    st_cache (add_members s e ms) = st_cache s /\ st_trace (add_members s e ms) = st_trace s.
+  Proof.
+    induction ms as [|m ms IH]; intros s e W C ND F.
+    - split; [exact C|]. split; [apply ds_ext_refl|]. split; reflexivity.
+    - simpl in ND. apply andb_true_iff in ND. destruct ND as [ND1 ND2]. apply negb_true_iff in ND1.
+      assert (Hstep : cbc (add_member s e (snd m)) /\ ds_ext s (add_member s e (snd m)) /\
+                      st_cache (add_member s e (snd m)) = st_cache s /\
+                      st_trace (add_member s e (snd m)) = st_trace s).
+      { destruct (snd m) as [d0|d0 g|d0] eqn:Em; unfold add_member.
+        - split; [apply new_ds_cbc; assumption|]. split; [|split; reflexivity].
+          apply new_ds_ext. specialize (F m (or_introl eq_refl)). rewrite Em in F. apply F. reflexivity.
+        - split; [apply new_ds_cbc; assumption|]. split; [|split; reflexivity].
+          apply new_ds_ext. specialize (F m (or_introl eq_refl)). rewrite Em in F. apply F. reflexivity.
+        - split; [apply set_dispatch_cbc; assumption|]. split; [apply set_dispatch_ext|].
+          unfold set_dispatch. destruct (get_ds s d0) as [rc|]; [|split; reflexivity].
+          destruct (get_ovl s (d_ovl rc)); split; reflexivity. }
+      destruct Hstep as [C1 [X1 [Ec1 Et1]]].
+      destruct (IH (add_member s e (snd m)) e) as [C2 [X2 [Ec2 Et2]]].
+      + apply add_member_wf. exact W.
+      + exact C1.
+      + exact ND2.
+      + intros m' Hin Hnew.
+        assert (Hne : mk_id (snd m') <> mk_id (snd m)).
+        { intro E. assert (Hm : memN (mk_id (snd m)) (map (fun m0 => mk_id (snd m0)) ms) = true).
+          { apply memN_In. apply in_map_iff. exists m'. split; [exact E | exact Hin]. }
+          congruence. }
+        specialize (F m' (or_intror Hin) Hnew).
+        destruct (snd m) as [d0|d0 g|d0]; unfold add_member; simpl in Hne.
+        * rewrite new_ds_has_key, F. apply N.eqb_neq in Hne. rewrite Hne. reflexivity.
+        * rewrite new_ds_has_key, F. apply N.eqb_neq in Hne. rewrite Hne. reflexivity.
+        * rewrite set_dispatch_has_key. exact F.
+      + simpl. fold (add_members (add_member s e (snd m)) e ms).
+        split; [exact C2|]. split; [eapply ds_ext_trans; eassumption|]. split; congruence.
+  Qed.
+
+  (** ** every operation keeps the invariants *)
+  Definition inv (s : state) : Prop := wf s /\ cbc s /\ tinv s.
+
+  Lemma inv_empty : inv (@empty_state V).
+  Proof. split; [apply wf_empty|]. split; [apply cbc_empty | apply tinv_empty]. Qed.
+
+  Lemma step_inv : forall fuel x s ob s', inv s -> STEP cfg_now fuel x s = Some (ob, s') -> inv s'.
+  Proof.
+    intros fuel x s ob s' [W [C T]] H.
+    split; [eapply step_wf; eassumption|].
+    destruct x; unfold step in H.
+    - destruct (has_key d (st_ds s)) eqn:K; inversion H; subst; [split; assumption|].
+      split; [apply new_ds_cbc; assumption|].
+      apply (tinv_frame s); try reflexivity; [apply new_ds_ext; exact K | exact T].
+    - destruct (has_key d (st_ds s)); inversion H; subst; [|split; assumption].
+      split; [apply (cbc_eq s); [apply register_ds | exact C]|].
+      apply (tinv_frame s); [apply register_cache | apply register_trace | apply ds_ext_eq; apply register_ds | exact T].
+    - destruct (negb (has_key d (st_ds s)) || has_key d' (st_ds s)) eqn:K; [inversion H; subst; split; assumption|].
+      destruct (negb (has_dispatch s d)); inversion H; subst; [split; assumption|].
+      apply orb_false_iff in K. destruct K as [_ K].
+      rewrite register_all_regs.
+      destruct (apply_regs_struct (map (fun a => (d, a, IDs d')) als) (new_ds s d' DMissing (Some (IFun g)) None))
+        as [A [_ [_ [Ac At]]]].
+      split; [apply (cbc_eq (new_ds s d' DMissing (Some (IFun g)) None)); [exact A | apply new_ds_cbc; assumption]|].
+      apply (tinv_frame s); [rewrite Ac; reflexivity | rewrite At; reflexivity | | exact T].
+      eapply ds_ext_trans; [apply new_ds_ext; exact K | apply ds_ext_eq; exact A].
+    - destruct (negb (has_key d (st_ds s)) || negb (has_key d' (st_ds s))); [inversion H; subst; split; assumption|].
+      destruct (negb (has_dispatch s d)); inversion H; subst; [split; assumption|].
+      rewrite register_all_regs.
+      destruct (apply_regs_struct (map (fun a => (d, a, IDs d')) als) s) as [A [_ [_ [Ac At]]]].
+      split; [apply (cbc_eq s); assumption|].
+      apply (tinv_frame s); [exact Ac | exact At | apply ds_ext_eq; exact A | exact T].
+    - destruct (has_key d (st_ds s)); inversion H; subst; [|split; assumption].
+      split; [apply set_dispatch_cbc; exact C|].
+      apply (tinv_frame s); [| | apply set_dispatch_ext | exact T];
+        unfold set_dispatch; destruct (get_ds s d) as [rc|]; try reflexivity;
+        destruct (get_ovl s (d_ovl rc)); reflexivity.
+    - destruct (get_ds s d) as [rc|] eqn:Hd; [|inversion H; subst; split; assumption].
+      destruct (has_key d' (st_ds s)) eqn:K; inversion H; subst; [split; assumption|].
+      split.
+      + (* the derivative shares the cache AND keeps the callback (fix: 3f28b1e) *)
+        intros d1 d2 r1 r2 H1 H2 Ec. unfold get_ds in H1, H2. simpl in H1, H2.
+        rewrite assoc_upd in H1, H2.
+        destruct (N.eqb d1 d'); destruct (N.eqb d2 d').
+        * congruence.
+        * inversion H1. subst. simpl in *. eapply C; eassumption.
+        * inversion H2. subst. simpl in *. eapply C; eassumption.
+        * eapply C; eassumption.
+      + apply (tinv_frame s); try reflexivity; [|exact T].
+        intros x rx Hx. exists rx. unfold get_ds. simpl. rewrite assoc_upd.
+        destruct (N.eqb x d') eqn:E; [|repeat split; exact Hx].
+        apply N.eqb_eq in E. subst. apply has_key_false in K. unfold get_ds in Hx. congruence.
+    - destruct (EVAL fuel d o s) as [[[v|e] s1]|] eqn:E; inversion H; subst;
+        (split; [apply (cbc_eq s); [apply (eval_struct _ _ _ _ _ _ E) | exact C] | eapply eval_tinv; eassumption]).
+    - destruct (has_key i (st_if s) || negb (nodupN (map (fun m => mk_id (snd m)) ms))
+                || negb (nodupN (map fst ms)) || negb (forallb (fun m => member_ok s (snd m)) ms)) eqn:K;
+        inversion H; subst; [split; assumption|].
+      apply orb_false_iff in K. destruct K as [K K4]. apply orb_false_iff in K. destruct K as [K K3].
+      apply orb_false_iff in K. destruct K as [K1 K2].
+      apply negb_false_iff in K2. apply negb_false_iff in K4. rewrite forallb_forall in K4.
+      destruct (add_members_inv ms s e W C K2) as [C2 [X2 [Ec2 Et2]]].
+      { intros m Hin Hnew. specialize (K4 m Hin). destruct (snd m); simpl in *; try discriminate;
+          apply negb_true_iff in K4; exact K4. }
+      split; [apply (cbc_eq (add_members s e ms)); [reflexivity | exact C2]|].
+      apply (tinv_frame s); [exact Ec2 | exact Et2 | | exact T].
+      eapply ds_ext_trans; [exact X2 | apply ds_ext_eq; reflexivity].
+    - destruct (negb (forallb (fun i => has_key i (st_if s)) ifs)); [inversion H; subst; split; assumption|].
+      destruct (implement s ifs als prov) as [s1|] eqn:E; inversion H; subst; [|split; assumption].
+      rewrite (implement_regs _ _ _ _ _ E).
+      destruct (apply_regs_struct (regs_of (members_of s ifs) als prov) s) as [A [_ [_ [Ac At]]]].
+      split; [apply (cbc_eq s); assumption|].
+      apply (tinv_frame s); [exact Ac | exact At | apply ds_ext_eq; exact A | exact T].
+  Qed.
+
+  Lemma run_inv : forall fuel h s obs s', inv s -> RUN cfg_now fuel h s = Some (obs, s') -> inv s'.
+  Proof.
+    intros fuel h. induction h as [|x h IH]; intros s obs s' I H.
+    - inversion H. subst. exact I.
+    - apply run_cons in H. destruct H as [ob [s1 [obs' [H1 [H2 _]]]]].
+      apply (IH s1 obs' s'); [eapply step_inv; eassumption | exact H2].
+  Qed.
+
+  (** * No cross-dispatch; the callback on every value *)
+
+  Lemma hits_explained_split : forall l1 e l2,
+    hits_explained (l1 ++ e :: l2) -> e_hit e = true -> exists e1, In e1 l2 /\ explains e1 e.
+  Proof.
+    induction l1 as [|x l1 IH]; intros e l2 H Hh; simpl in H.
+    - destruct H as [H _]. apply H. exact Hh.
+    - destruct H as [_ H]. apply IH; assumption.
+  Qed.
+
+  Lemma Forall_In : forall A (P : A -> Prop) l x, Forall P l -> In x l -> P x.
+  Proof. intros A P l x H. rewrite Forall_forall in H. apply H. Qed.
+
+  (** In every history from the empty state: a value served from a cache was stored by an earlier
+      evaluation under the same fingerprint, and — same dispatch expression, outside the D19 zone —
+      that evaluation had the same dispatch outcome (the same alias, or both undeterminable). *)
+  Theorem no_cross_dispatch_history : forall fuel h obs s,
+    RUN cfg_now fuel h (@empty_state V) = Some (obs, s) ->
+    forall l1 e2 l2, st_trace s = l1 ++ e2 :: l2 -> e_hit e2 = true ->
+      exists e1, In e1 l2 /\ explains e1 e2 /\
+        (e_disp e1 = e_disp e2 -> dispatch_safe (e_disp e2) = true ->
+         dres_same (e_dres e1) (e_dres e2)).
+  Proof.
+    intros fuel h obs s H l1 e2 l2 Et Hh.
+    destruct (run_inv fuel h _ obs s inv_empty H) as [_ [_ [T1 [_ [_ T4]]]]].
+    rewrite Et in T4. destruct (hits_explained_split l1 e2 l2 T4 Hh) as [e1 [Hin Hex]].
+    exists e1. split; [exact Hin|]. split; [exact Hex|]. intros Ed Hsafe.
+    assert (O1 : ev_ok e1) by (apply (Forall_In _ _ _ _ T1); rewrite Et; apply in_or_app; right; right; exact Hin).
+    assert (O2 : ev_ok e2) by (apply (Forall_In _ _ _ _ T1); rewrite Et; apply in_or_app; right; left; reflexivity).
+    destruct O1 as [F1 [D1 K1]]. destruct O2 as [F2 [D2 K2]].
+    destruct Hex as [_ [_ [Ef _]]]. rewrite D1, D2, Ed.
+    apply (fp_determines_dispatch (e_disp e2) (e_opts e1) (e_opts e2) (e_keys e1) (e_keys e2) (e_fp e2) Hsafe).
+    - rewrite <- Ef. exact F1.
+    - exact F2.
+    - intros a Ha. rewrite <- Ed. apply (K1 a). rewrite D1, Ed. exact Ha.
+    - intros a Ha. apply (K2 a). rewrite D2. exact Ha.
+  Qed.
+
+  (** Every value an evaluation ever returned — computed or served — is its dataset's callback
+      applied to the raw result of an implementation. *)
+  Theorem callback_on_every_value : forall fuel h obs s,
+    RUN cfg_now fuel h (@empty_state V) = Some (obs, s) ->
+    forall e, In e (st_trace s) ->
+      exists rc w, get_ds s (e_ds e) = Some rc /\ e_val e = CB (d_cb rc) w.
+  Proof.
+    intros fuel h obs s H e Hin.
+    destruct (run_inv fuel h _ obs s inv_empty H) as [_ [C [_ [T2 [_ T4]]]]].
+    destruct (Forall_In _ _ _ _ T2 Hin) as [rc [A [B Cc]]].
+    exists rc. destruct (e_hit e) eqn:Hh.
+    - apply in_split in Hin. destruct Hin as [l1 [l2 Et]]. rewrite Et in T4.
+      destruct (hits_explained_split l1 e l2 T4 Hh) as [e1 [Hin1 [X1 [X2 [X3 X4]]]]].
+      assert (Hin1' : In e1 (st_trace s)) by (rewrite Et; apply in_or_app; right; right; exact Hin1).
+      destruct (Forall_In _ _ _ _ T2 Hin1') as [rc1 [A1 [B1 C1]]].
+      destruct (C1 X1) as [w [_ Ew]]. exists w. split; [exact A|].
+      rewrite <- X4, Ew. f_equal. apply (C _ _ _ _ A1 A). congruence.
+    - destruct (Cc eq_refl) as [w [_ Ew]]. exists w. split; assumption.
+  Qed.
+
+  (** ** from observations to history records *)
+
+  Lemma eval_trace_mono : forall f d o s r s', EVAL f d o s = Some (r, s') ->
+    exists l, st_trace s' = l ++ st_trace s.
+  Proof.
+    induction f as [|f IH]; intros d o s r s' H; [discriminate|].
+    assert (IR : forall i o0 r0 s1, impl_run f i o0 s = Some (r0, s1) -> exists l, st_trace s1 = l ++ st_trace s).
+    { intros i o0 r0 s1 Hi. destruct i as [g|d']; simpl in Hi.
+      - inversion Hi. subst. exists []. reflexivity.
+      - eapply IH. eassumption. }
+    apply eval_inv in H. ecases H; try (exists []; reflexivity).
+    - eexists [_]. reflexivity.
+    - apply (IR _ _ _ _ Hi).
+    - destruct (IR _ _ _ _ Hi) as [l El]. exists (mkev d rc ov (overlay (d_preset rc) o) ks fpr false (Some x) (CB (d_cb rc) x) :: l).
+      simpl. rewrite El. reflexivity.
+  Qed.
+
+  Lemma eval_logs : forall f d o s v s', EVAL f d o s = Some (RVal v, s') ->
+    exists e l, st_trace s' = e :: l /\ e_ds e = d /\ e_val e = v.
+  Proof.
+    intros f d o s v s' H. destruct f as [|f]; [discriminate|].
+    apply eval_inv in H. inversion H; subst; eexists; eexists; (split; [reflexivity|]); split; reflexivity.
+  Qed.
+
+  Lemma step_trace_mono : forall fuel x s ob s', STEP cfg_now fuel x s = Some (ob, s') ->
+    exists l, st_trace s' = l ++ st_trace s.
+  Proof.
+    intros fuel x s ob s' H. destruct x; unfold step in H.
+    - destruct (has_key d (st_ds s)); inversion H; subst; exists []; reflexivity.
+    - destruct (has_key d (st_ds s)); inversion H; subst; exists []; [rewrite register_trace|]; reflexivity.
+    - destruct (negb (has_key d (st_ds s)) || has_key d' (st_ds s)); [inversion H; subst; exists []; reflexivity|].
+      destruct (negb (has_dispatch s d)); inversion H; subst; exists []; [reflexivity|].
+      rewrite register_all_regs.
+      destruct (apply_regs_struct (map (fun a => (d, a, IDs d')) als) (new_ds s d' DMissing (Some (IFun g)) None))
+        as [_ [_ [_ [_ At]]]]. rewrite At. reflexivity.
+    - destruct (negb (has_key d (st_ds s)) || negb (has_key d' (st_ds s))); [inversion H; subst; exists []; reflexivity|].
+      destruct (negb (has_dispatch s d)); inversion H; subst; exists []; [reflexivity|].
+      rewrite register_all_regs.
+      destruct (apply_regs_struct (map (fun a => (d, a, IDs d')) als) s) as [_ [_ [_ [_ At]]]]. rewrite At. reflexivity.
+    - destruct (has_key d (st_ds s)); inversion H; subst; exists []; [|reflexivity].
+      unfold set_dispatch. destruct (get_ds s d) as [rc|]; [|reflexivity].
+      destruct (get_ovl s (d_ovl rc)); reflexivity.
+    - destruct (get_ds s d) as [rc|]; [|inversion H; subst; exists []; reflexivity].
+      destruct (has_key d' (st_ds s)); inversion H; subst; exists []; reflexivity.
+    - destruct (EVAL fuel d o s) as [[[v|e] s1]|] eqn:E; inversion H; subst; eapply eval_trace_mono; eassumption.
+    - destruct (has_key i (st_if s) || negb (nodupN (map (fun m => mk_id (snd m)) ms))
+                || negb (nodupN (map fst ms)) || negb (forallb (fun m => member_ok s (snd m)) ms)) eqn:K;
+        inversion H; subst; exists []; [reflexivity|].
+      simpl. clear H K. revert s. induction ms as [|m ms IH]; intro s; [reflexivity|].
+      simpl. rewrite IH. destruct (snd m) as [d0|d0 g|d0]; unfold add_member; try reflexivity.
+      unfold set_dispatch. destruct (get_ds s d0) as [rc|]; [|reflexivity].
+      destruct (get_ovl s (d_ovl rc)); reflexivity.
+    - destruct (negb (forallb (fun i => has_key i (st_if s)) ifs)); [inversion H; subst; exists []; reflexivity|].
+      destruct (implement s ifs als prov) as [s1|] eqn:E; inversion H; subst; exists []; [|reflexivity].
+      rewrite (implement_regs _ _ _ _ _ E).
+      destruct (apply_regs_struct (regs_of (members_of s ifs) als prov) s) as [_ [_ [_ [_ At]]]]. rewrite At. reflexivity.
+  Qed.
+
+  Lemma run_trace_mono : forall fuel h s obs s', RUN cfg_now fuel h s = Some (obs, s') ->
+    exists l, st_trace s' = l ++ st_trace s.
+  Proof.
+    intros fuel h. induction h as [|x h IH]; intros s obs s' H.
+    - inversion H. subst. exists []. reflexivity.
+    - apply run_cons in H. destruct H as [ob [s1 [obs' [H1 [H2 _]]]]].
+      destruct (step_trace_mono _ _ _ _ _ H1) as [l1 E1]. destruct (IH _ _ _ H2) as [l2 E2].
+      exists (l2 ++ l1). rewrite E2, E1. apply app_assoc.
+  Qed.
+
+  (** The same statement in terms of what the history's evaluations returned. *)
+  Theorem callback_on_every_observation : forall fuel h obs s n d o v hit,
+    RUN cfg_now fuel h (@empty_state V) = Some (obs, s) ->
+    nth_error h n = Some (OEval d o) -> nth_error obs n = Some (ObVal v hit) ->
+    exists rc w, get_ds s d = Some rc /\ v = CB (d_cb rc) w.
+  Proof.
+    intros fuel h obs s n d o v hit H Hn Ho.
+    destruct (nth_error_split h n Hn) as [h1 [h2 [Eh Ln]]]. subst h.
+    pose proof H as H0.
+    apply run_app in H. destruct H as [obs1 [s0 [obs2 [H1 [H2 [E L]]]]]].
+    apply run_cons in H2. destruct H2 as [ob [s1 [obs' [H3 [H4 E2]]]]].
+    subst obs obs2. rewrite nth_error_app2 in Ho; [|lia]. rewrite L, Ln, Nat.sub_diag in Ho.
+    simpl in Ho. inversion Ho. subst ob.
+    unfold step in H3. destruct (EVAL fuel d o s0) as [[[v'|e'] s1']|] eqn:E; inversion H3; subst.
+    destruct (eval_logs _ _ _ _ _ _ E) as [e [l [Et [Ed Ev]]]].
+    destruct (run_trace_mono _ _ _ _ _ H4) as [l' El].
+    assert (Hin : In e (st_trace s)) by (rewrite El, Et; apply in_or_app; right; left; reflexivity).
+    destruct (callback_on_every_value fuel _ _ s H0 e Hin) as [rc [w [A B]]].
+    exists rc, w. rewrite <- Ed, <- Ev. split; assumption.
+  Qed.
+
+  (** * Interfaces *)
+
+  (** every member of every interface carries the interface's dispatch expression *)
+  Definition if_ok (s : state) : Prop :=
+    forall i f n d, assoc i (st_if s) = Some f -> In (n, d) (if_members f) ->
+      exists ov, ovl_of s d = Some ov /\ o_disp ov = if_disp f.
+
+  Definition is_member (s : state) (d : N) : bool :=
+    existsb (fun p => existsb (fun nd => N.eqb (snd nd) d) (if_members (snd p))) (st_if s).
+
+  (** the operation does not re-dispatch an interface member behind the interface's back
+      (member.set_dispatch(...), or adopting a member into a second interface) *)
+  Definition op_keeps (s : state) (x : op) : bool :=
+    match x with
+    | OSetDispatch d _ => negb (is_member s d)
+    | OInterface _ _ ms =>
+        forallb (fun m => match snd m with MExisting d => negb (is_member s d) | _ => true end) ms
+    | _ => true
+    end.
+
+  Fixpoint keeps (fuel : nat) (h : list op) (s : state) : bool :=
+    match h with
+    | [] => true
+    | x :: h' =>
+        op_keeps s x &&
+        match STEP cfg_now fuel x s with Some (_, s1) => keeps fuel h' s1 | None => true end
+    end.
+
+  Lemma is_member_true : forall s i f n d,
+    assoc i (st_if s) = Some f -> In (n, d) (if_members f) -> is_member s d = true.
+  Proof.
+    intros s i f n d A Hin. unfold is_member. apply existsb_exists. exists (i, f).
+    split; [apply assoc_In; exact A|]. simpl. apply existsb_exists. exists (n, d).
+    split; [exact Hin | apply N.eqb_refl].
+  Qed.
+
+  Lemma ovl_of_has_key : forall (s : state) d ov, ovl_of s d = Some ov -> has_key d (st_ds s) = true.
+  Proof.
+    intros s d ov H. unfold ovl_of in H. destruct (get_ds s d) as [rc|] eqn:E; [|discriminate].
+    apply has_key_true. exists rc. exact E.
+  Qed.
+
+  Lemma apply_regs_disp : forall l s d ov, wf s -> ovl_of s d = Some ov ->
+    exists ov', ovl_of (apply_regs s l) d = Some ov' /\ o_disp ov' = o_disp ov /\ o_default ov' = o_default ov.
+  Proof.
+    induction l as [|[[d0 a0] i] l IH]; intros s d ov W H.
+    - exists ov. repeat split. exact H.
+    - rewrite apply_regs_cons.
+      pose proof (register_ovl_of s d0 a0 i d W) as R. rewrite H in R.
+      destruct (IH _ d _ (register_wf s d0 a0 i W) R) as [ov' [A [B C]]].
+      exists ov'. split; [exact A|]. destruct (same_ovl s d0 d); simpl in B, C; split; assumption.
+  Qed.
+
+  Lemma add_members_if : forall ms (s : state) e, st_if (add_members s e ms) = st_if s.
+  Proof.
+    induction ms as [|m ms IH]; intros s e; [reflexivity|]. simpl.
+    fold (add_members (add_member s e (snd m)) e ms). rewrite IH.
+    destruct (snd m) as [d0|d0 g|d0]; unfold add_member; try reflexivity.
+    unfold set_dispatch. destruct (get_ds s d0) as [rc|]; [|reflexivity].
+    destruct (get_ovl s (d_ovl rc)); reflexivity.
+  Qed.
+
+  Lemma add_member_other : forall s e m d0, wf s -> mk_id m <> d0 ->
+    ovl_of (add_member s e m) d0 = ovl_of s d0.
+  Proof.
+    intros s e m d0 W Hne. destruct m as [d1|d1 g|d1]; unfold add_member; simpl in Hne.
+    - apply new_ds_ovl_of_other; [exact W | intro E; apply Hne; symmetry; exact E].
+    - apply new_ds_ovl_of_other; [exact W | intro E; apply Hne; symmetry; exact E].
+    - apply set_dispatch_ovl_of_other; [exact W | intro E; apply Hne; symmetry; exact E].
+  Qed.
+
+  Lemma add_members_other : forall ms s e d0, wf s ->
+    (forall m, In m ms -> mk_id (snd m) <> d0) ->
+    ovl_of (add_members s e ms) d0 = ovl_of s d0.
+  Proof.
+    induction ms as [|m ms IH]; intros s e d0 W H; [reflexivity|]. simpl.
+    fold (add_members (add_member s e (snd m)) e ms).
+    rewrite IH; [| apply add_member_wf; exact W | intros m' Hin; apply H; right; exact Hin].
+    apply add_member_other; [exact W | apply H; left; reflexivity].
+  Qed.
+
+  Lemma add_member_disp : forall s e m, wf s ->
+    (is_new m = false -> has_key (mk_id m) (st_ds s) = true) ->
+    exists ov, ovl_of (add_member s e m) (mk_id m) = Some ov /\ o_disp ov = e.
+  Proof.
+    intros s e m W H. destruct m as [d1|d1 g|d1]; unfold add_member; simpl.
+    - rewrite new_ds_ovl_of_same. eexists. split; reflexivity.
+    - rewrite new_ds_ovl_of_same. eexists. split; reflexivity.
+    - specialize (H eq_refl). simpl in H. apply has_key_true in H. destruct H as [rc Hrc].
+      destruct (W d1 rc Hrc) as [_ [_ [ov Hov]]].
+      rewrite (set_dispatch_ovl_of_same s d1 e rc ov Hrc Hov). eexists. split; reflexivity.
+  Qed.
+
+  Lemma add_members_disp : forall ms s e, wf s ->
+    nodupN (map (fun m => mk_id (snd m)) ms) = true ->
+    (forall m, In m ms -> is_new (snd m) = false -> has_key (mk_id (snd m)) (st_ds s) = true) ->
+    forall m, In m ms -> exists ov, ovl_of (add_members s e ms) (mk_id (snd m)) = Some ov /\ o_disp ov = e.
+  Proof.
+    induction ms as [|m0 ms IH]; intros s e W ND Hex m Hin; [destruct Hin|].
+    simpl in ND. apply andb_true_iff in ND. destruct ND as [ND1 ND2]. apply negb_true_iff in ND1.
+    simpl. fold (add_members (add_member s e (snd m0)) e ms).
+    destruct Hin as [E|Hin].
+    - subst m0. rewrite add_members_other.
+      + apply add_member_disp; [exact W | apply Hex; left; reflexivity].
+      + apply add_member_wf. exact W.
+      + intros m' Hin' E. assert (X : memN (mk_id (snd m)) (map (fun m1 => mk_id (snd m1)) ms) = true).
+        { apply memN_In. apply in_map_iff. exists m'. split; [exact E | exact Hin']. }
+        congruence.
+    - apply IH; [apply add_member_wf; exact W | exact ND2 | | exact Hin].
+      intros m' Hin' Hn. apply add_member_has_key. apply Hex; [right; exact Hin' | exact Hn].
+  Qed.
+
+  Lemma step_if_ok : forall fuel x s ob s',
+    wf s -> if_ok s -> op_keeps s x = true -> STEP cfg_now fuel x s = Some (ob, s') -> if_ok s'.
+  Proof.
+    intros fuel x s ob s' W I K H. destruct x; unfold step in H; simpl in K.
+    - destruct (has_key d (st_ds s)) eqn:Hd; inversion H; subst; [exact I|].
+      intros i f n d0 A Hin. destruct (I i f n d0 A Hin) as [ov [B C]]. exists ov. split; [|exact C].
+      rewrite new_ds_ovl_of_other; [exact B | exact W |].
+      intro E. subst. apply ovl_of_has_key in B. congruence.
+    - destruct (has_key d (st_ds s)); inversion H; subst; [|exact I].
+      intros i0 f n d0 A Hin. rewrite register_if in A. destruct (I i0 f n d0 A Hin) as [ov [B C]].
+      rewrite (register_ovl_of s d a i d0 W), B. eexists. split; [reflexivity|].
+      destruct (same_ovl s d d0); exact C.
+    - destruct (negb (has_key d (st_ds s)) || has_key d' (st_ds s)) eqn:Hk; [inversion H; subst; exact I|].
+      destruct (negb (has_dispatch s d)); inversion H; subst; [exact I|].
+      apply orb_false_iff in Hk. destruct Hk as [_ Hk].
+      rewrite register_all_regs. intros i f n d0 A Hin.
+      destruct (apply_regs_struct (map (fun a => (d, a, IDs d')) als) (new_ds s d' DMissing (Some (IFun g)) None))
+        as [_ [_ [Ai _]]]. rewrite Ai in A.
+      destruct (I i f n d0 A Hin) as [ov [B C]].
+      assert (B' : ovl_of (new_ds s d' DMissing (Some (IFun g)) None) d0 = Some ov).
+      { rewrite new_ds_ovl_of_other; [exact B | exact W |]. intro E. subst. apply ovl_of_has_key in B. congruence. }
+      destruct (apply_regs_disp (map (fun a => (d, a, IDs d')) als) _ d0 ov (new_ds_wf _ _ _ _ _ W) B') as [ov' [X [Y _]]].
+      exists ov'. split; [exact X | congruence].
+    - destruct (negb (has_key d (st_ds s)) || negb (has_key d' (st_ds s))); [inversion H; subst; exact I|].
+      destruct (negb (has_dispatch s d)); inversion H; subst; [exact I|].
+      rewrite register_all_regs. intros i f n d0 A Hin.
+      destruct (apply_regs_struct (map (fun a => (d, a, IDs d')) als) s) as [_ [_ [Ai _]]]. rewrite Ai in A.
+      destruct (I i f n d0 A Hin) as [ov [B C]].
+      destruct (apply_regs_disp (map (fun a => (d, a, IDs d')) als) _ d0 ov W B) as [ov' [X [Y _]]].
+      exists ov'. split; [exact X | congruence].
+    - destruct (has_key d (st_ds s)); inversion H; subst; [|exact I].
+      intros i f n d0 A Hin.
+      assert (A' : assoc i (st_if s) = Some f).
+      { unfold set_dispatch in A. destruct (get_ds s d) as [rc|]; [|exact A].
+        destruct (get_ovl s (d_ovl rc)); exact A. }
+      destruct (I i f n d0 A' Hin) as [ov [B C]]. exists ov. split; [|exact C].
+      rewrite set_dispatch_ovl_of_other; [exact B | exact W |].
+      intro E. subst. rewrite (is_member_true s i f n d A' Hin) in K. discriminate.
+    - destruct (get_ds s d) as [rc|] eqn:Hd; [|inversion H; subst; exact I].
+      destruct (has_key d' (st_ds s)) eqn:Hk; inversion H; subst; [exact I|].
+      intros i f n d0 A Hin. destruct (I i f n d0 A Hin) as [ov [B C]]. exists ov. split; [|exact C].
+      unfold ovl_of, get_ds. simpl. rewrite assoc_upd. destruct (N.eqb d0 d') eqn:E; [|exact B].
+      apply N.eqb_eq in E. subst. apply ovl_of_has_key in B. congruence.
+    - destruct (EVAL fuel d o s) as [[[v|e] s1]|] eqn:E; inversion H; subst;
+        apply eval_struct in E; intros i f n d0 A Hin;
+        (destruct E as [E1 [E2 [E3 E4]]]; rewrite E3 in A; destruct (I i f n d0 A Hin) as [ov [B C]];
+         exists ov; split; [|exact C];
+         rewrite (same_struct_ovl_of s s'); [exact B | repeat split; assumption]).
+    - destruct (has_key i (st_if s) || negb (nodupN (map (fun m => mk_id (snd m)) ms))
+                || negb (nodupN (map fst ms)) || negb (forallb (fun m => member_ok s (snd m)) ms)) eqn:Hk;
+        inversion H; subst; [exact I|].
+      apply orb_false_iff in Hk. destruct Hk as [Hk K4]. apply orb_false_iff in Hk. destruct Hk as [Hk K3].
+      apply orb_false_iff in Hk. destruct Hk as [K1 K2].
+      apply negb_false_iff in K2. apply negb_false_iff in K4. rewrite forallb_forall in K4.
+      rewrite forallb_forall in K.
+      fold (add_members s e ms).
+      intros i0 f n d0 A Hin. simpl in A. rewrite assoc_upd in A.
+      change (exists ov, ovl_of (add_members s e ms) d0 = Some ov /\ o_disp ov = if_disp f).
+      destruct (N.eqb i0 i) eqn:Ei.
+      + inversion A. subst f. simpl in *. apply in_map_iff in Hin. destruct Hin as [m [Em Hm]].
+        inversion Em. subst.
+        apply (add_members_disp ms s e W K2); [|exact Hm].
+        intros m' Hin' Hn. specialize (K4 m' Hin'). destruct (snd m'); simpl in *; try discriminate. exact K4.
+      + rewrite add_members_if in A. destruct (I i0 f n d0 A Hin) as [ov [B C]].
+        exists ov. split; [|exact C]. rewrite add_members_other; [exact B | exact W |].
+        intros m Hm E. subst d0. specialize (K4 m Hm). specialize (K m Hm).
+        destruct (snd m) as [d1|d1 g|d1]; simpl in *.
+        * apply ovl_of_has_key in B. apply negb_true_iff in K4. congruence.
+        * apply ovl_of_has_key in B. apply negb_true_iff in K4. congruence.
+        * rewrite (is_member_true s i0 f n d1 A Hin) in K. discriminate.
+    - destruct (negb (forallb (fun i => has_key i (st_if s)) ifs)); [inversion H; subst; exact I|].
+      destruct (implement s ifs als prov) as [s1|] eqn:E; inversion H; subst; [|exact I].
+      rewrite (implement_regs _ _ _ _ _ E). intros i f n d0 A Hin.
+      destruct (apply_regs_struct (regs_of (members_of s ifs) als prov) s) as [_ [_ [Ai _]]]. rewrite Ai in A.
+      destruct (I i f n d0 A Hin) as [ov [B C]].
+      destruct (apply_regs_disp (regs_of (members_of s ifs) als prov) _ d0 ov W B) as [ov' [X [Y _]]].
+      exists ov'. split; [exact X | congruence].
+  Qed.
+
+  Lemma run_if_ok : forall fuel h s obs s',
+    wf s -> if_ok s -> keeps fuel h s = true -> RUN cfg_now fuel h s = Some (obs, s') -> if_ok s'.
+  Proof.
+    intros fuel h. induction h as [|x h IH]; intros s obs s' W I K H.
+    - inversion H. subst. exact I.
+    - apply run_cons in H. destruct H as [ob [s1 [obs' [H1 [H2 _]]]]].
+      simpl in K. apply andb_true_iff in K. destruct K as [K1 K2]. rewrite H1 in K2.
+      apply (IH s1 obs' s'); [eapply step_wf; eassumption | eapply step_if_ok; eassumption | exact K2 | exact H2].
+  Qed.
+
+  (** Under one options dictionary all members of an interface see the same dispatch value. *)
+  Theorem interface_consistent : forall fuel h obs s,
+    RUN cfg_now fuel h (@empty_state V) = Some (obs, s) -> keeps fuel h (@empty_state V) = true ->
+    forall i f n1 d1 n2 d2, assoc i (st_if s) = Some f ->
+      In (n1, d1) (if_members f) -> In (n2, d2) (if_members f) ->
+      exists ov1 ov2, ovl_of s d1 = Some ov1 /\ ovl_of s d2 = Some ov2 /\
+        o_disp ov1 = if_disp f /\ o_disp ov2 = if_disp f /\
+        forall o, deval (o_disp ov1) o = deval (o_disp ov2) o.
+  Proof.
+    intros fuel h obs s H K i f n1 d1 n2 d2 A H1 H2.
+    assert (I : if_ok s).
+    { apply (run_if_ok fuel h _ obs s wf_empty); [|exact K | exact H].
+      intros i0 f0 n d A0. discriminate. }
+    destruct (I i f n1 d1 A H1) as [ov1 [B1 C1]]. destruct (I i f n2 d2 A H2) as [ov2 [B2 C2]].
+    exists ov1, ov2. repeat split; try assumption. intro o. rewrite C1, C2. reflexivity.
+  Qed.
+
+  (** A member without an override for the current alias uses its (the interface's) default;
+      an abstract one fails. *)
+  Theorem member_without_override : forall ov o a,
+    deval (o_disp ov) o = DVal a -> assoc a (o_table ov) = None -> pick ov o = o_default ov.
+  Proof. intros ov o a H1 H2. unfold pick. rewrite H1, H2. reflexivity. Qed.
+
+  (** * Interface implementations: all or nothing *)
+
+  (** ** what [_get_members] collects *)
+  Definition getl (n : N) (m : list (N * list N)) : list N :=
+    match assoc n m with Some l => l | None => [] end.
+  Definition collect (n : N) (l : list (N * N)) : list N :=
+    map snd (filter (fun nd => N.eqb (fst nd) n) l).
+
+  Lemma getl_push : forall n m nd,
+    getl n (push_member m nd) = if N.eqb (fst nd) n then getl n m ++ [snd nd] else getl n m.
+  Proof.
+    intros n m [n' d]. unfold push_member, getl. simpl. rewrite assoc_upd. rewrite (N.eqb_sym n' n).
+    destruct (N.eqb n n') eqn:E; [|reflexivity]. apply N.eqb_eq in E. subst.
+    destruct (assoc n' m); reflexivity.
+  Qed.
+
+  Lemma getl_push_all : forall l n m, getl n (fold_left push_member l m) = getl n m ++ collect n l.
+  Proof.
+    induction l as [|nd l IH]; intros n m; simpl.
+    - unfold collect. simpl. rewrite app_nil_r. reflexivity.
+    - rewrite IH, getl_push. unfold collect. simpl. destruct (N.eqb (fst nd) n); simpl.
+      + rewrite <- app_assoc. reflexivity.
+      + reflexivity.
+  Qed.
+
+  Lemma In_collect : forall n d l, In d (collect n l) <-> In (n, d) l.
+  Proof.
+    intros n d l. unfold collect. rewrite in_map_iff. split.
+    - intros [[n' d'] [E H]]. simpl in E. subst. apply filter_In in H. destruct H as [H1 H2].
+      simpl in H2. apply N.eqb_eq in H2. subst. exact H1.
+    - intro H. exists (n, d). split; [reflexivity|]. apply filter_In. split; [exact H | apply N.eqb_refl].
+  Qed.
+
+  Lemma members_of_spec : forall (s : state) ifs n d,
+    In d (getl n (members_of s ifs)) <->
+    exists i f, In i ifs /\ assoc i (st_if s) = Some f /\ In (n, d) (if_members f).
+  Proof.
+    intros s ifs n d. unfold members_of.
+    assert (G : forall l m, In d (getl n (fold_left (fun m i => match assoc i (st_if s) with
+                          | Some f => fold_left push_member (if_members f) m
+                          | None => m end) l m)) <->
+                (In d (getl n m) \/ exists i f, In i l /\ assoc i (st_if s) = Some f /\ In (n, d) (if_members f))).
+    { induction l as [|i l IH]; intro m; simpl.
+      - split; [intro H; left; exact H | intros [H|[i [f [[] _]]]]; exact H].
+      - rewrite IH. destruct (assoc i (st_if s)) as [f|] eqn:A.
+        + rewrite getl_push_all, in_app_iff, In_collect. split.
+          * intros [[H|H]|[i' [f' [H1 H2]]]].
+            -- left. exact H.
+            -- right. exists i, f. split; [left; reflexivity|]. split; assumption.
+            -- right. exists i', f'. split; [right; exact H1 | exact H2].
+          * intros [H|[i' [f' [[E|H1] [H2 H3]]]]].
+            -- left. left. exact H.
+            -- subst i'. rewrite A in H2. inversion H2. subst. left. right. exact H3.
+            -- right. exists i', f'. split; [exact H1|]. split; assumption.
+        + split.
+          * intros [H|[i' [f' [H1 H2]]]]; [left; exact H|]. right. exists i', f'. split; [right; exact H1 | exact H2].
+          * intros [H|[i' [f' [[E|H1] [H2 H3]]]]]; [left; exact H | subst; congruence |].
+            right. exists i', f'. split; [exact H1|]. split; assumption. }
+    rewrite G. unfold getl. simpl. split; [intros [[]|H]; exact H | intro H; right; exact H].
+  Qed.
+
+  (** keys of a list built by [upd] are unique *)
+  Definition ukeys {A : Type} (l : list (N * A)) : Prop := NoDup (map fst l).
+
+  Lemma upd_keys_In : forall A k (v : A) l x, In x (map fst (upd k v l)) <-> x = k \/ In x (map fst l).
+  Proof.
+    intros A k v l x. induction l as [|[k' v'] l IH]; simpl.
+    - intuition.
+    - destruct (N.eqb k k') eqn:E; simpl.
+      + apply N.eqb_eq in E. subst. intuition.
+      + rewrite IH. intuition.
+  Qed.
+
+  Lemma upd_ukeys : forall A k (v : A) l, ukeys l -> ukeys (upd k v l).
+  Proof.
+    intros A k v l. unfold ukeys. induction l as [|[k' v'] l IH]; simpl; intro H.
+    - constructor; [intros []| constructor].
+    - inversion H. subst. destruct (N.eqb k k') eqn:E; simpl.
+      + apply N.eqb_eq in E. subst. constructor; assumption.
+      + constructor; [|apply IH; assumption]. rewrite upd_keys_In. intros [X|X]; [|contradiction].
+        subst. rewrite N.eqb_refl in E. discriminate.
+  Qed.
+
+  Lemma ukeys_assoc : forall A (l : list (N * A)) k v, ukeys l -> In (k, v) l -> assoc k l = Some v.
+  Proof.
+    intros A l k v. unfold ukeys. induction l as [|[k' v'] l IH]; simpl; intros U H; [destruct H|].
+    inversion U. subst. destruct H as [H|H].
+    - inversion H. subst. rewrite N.eqb_refl. reflexivity.
+    - destruct (N.eqb k k') eqn:E; [|apply IH; assumption].
+      apply N.eqb_eq in E. subst. exfalso. apply H2. apply in_map_iff. exists (k', v). split; [reflexivity | exact H].
+  Qed.
+
+  Lemma members_of_ukeys : forall (s : state) ifs, ukeys (members_of s ifs).
+  Proof.
+    intros s ifs. unfold members_of.
+    assert (P : forall l m, ukeys m -> ukeys (fold_left push_member l m)).
+    { induction l as [|[n d] l IH]; intros m U; [exact U|]. simpl. apply IH. apply upd_ukeys. exact U. }
+    assert (G : forall l m, ukeys m -> ukeys (fold_left (fun m i => match assoc i (st_if s) with
+                          | Some f => fold_left push_member (if_members f) m | None => m end) l m)).
+    { induction l as [|i l IH]; intros m U; [exact U|]. simpl. apply IH.
+      destruct (assoc i (st_if s)); [apply P; exact U | exact U]. }
+    apply G. constructor.
+  Qed.
+
+  (** ** the registrations of an accepted implementation: exactly the provided members, under
+      every alias, on every interface member of that name *)
+  Lemma In_regs_of : forall ms als prov d a i,
+    In (d, a, i) (regs_of ms als prov) <->
+    exists n dl, In (n, dl) ms /\ assoc n prov = Some i /\ In d dl /\ In a als.
+  Proof.
+    intros ms als prov d a i. unfold regs_of. rewrite in_flat_map. split.
+    - intros [[n dl] [H1 H2]]. destruct (assoc n prov) as [i'|] eqn:A; [|destruct H2].
+      apply in_flat_map in H2. destruct H2 as [d' [H3 H4]]. apply in_map_iff in H4.
+      destruct H4 as [a' [E H5]]. inversion E. subst. exists n, dl. repeat split; assumption.
+    - intros [n [dl [H1 [H2 [H3 H4]]]]]. exists (n, dl). split; [exact H1|]. rewrite H2.
+      apply in_flat_map. exists d. split; [exact H3|]. apply in_map_iff. exists a. split; [reflexivity | exact H4].
+  Qed.
+
+  Theorem implement_registers_exactly : forall (s : state) ifs als prov d a i,
+    In (d, a, i) (regs_of (members_of s ifs) als prov) <->
+    exists n, assoc n prov = Some i /\ In a als /\
+      exists j f, In j ifs /\ assoc j (st_if s) = Some f /\ In (n, d) (if_members f).
+  Proof.
+    intros s ifs als prov d a i. rewrite In_regs_of. split.
+    - intros [n [dl [H1 [H2 [H3 H4]]]]]. exists n. split; [exact H2|]. split; [exact H4|].
+      apply members_of_spec. unfold getl.
+      rewrite (ukeys_assoc _ _ _ _ (members_of_ukeys s ifs) H1). exact H3.
+    - intros [n [H2 [H4 H5]]]. apply members_of_spec in H5. unfold getl in H5.
+      destruct (assoc n (members_of s ifs)) as [dl|] eqn:A; [|destruct H5].
+      exists n, dl. split; [apply assoc_In; exact A|]. repeat split; assumption.
+  Qed.
+
+  (** ** rejected: nothing changes; and exactly when the text says *)
+  Theorem implement_rejected_nothing : forall fuel ifs als prov s s',
+    STEP cfg_now fuel (OImplement ifs als prov) s = Some (ObRej, s') -> s' = s.
+  Proof.
+    intros fuel ifs als prov s s' H. unfold step in H.
+    destruct (negb (forallb (fun i => has_key i (st_if s)) ifs)); [discriminate|]. simpl in H.
+    destruct (implement s ifs als prov); inversion H. reflexivity.
+  Qed.
+
+  Definition nonempty_vals (m : list (N * list N)) : Prop := forall n dl, In (n, dl) m -> dl <> [].
+
+  Lemma upd_In : forall A k (v : A) l x, In x (upd k v l) -> x = (k, v) \/ In x l.
+  Proof.
+    intros A k v l x. induction l as [|[k' v'] l IH]; simpl.
+    - intros [H|[]]. left. symmetry. exact H.
+    - destruct (N.eqb k k'); simpl.
+      + intros [H|H]; [left; symmetry; exact H | right; right; exact H].
+      + intros [H|H]; [right; left; exact H|]. destruct (IH H) as [X|X]; [left; exact X | right; right; exact X].
+  Qed.
+
+  Lemma members_of_nonempty : forall (s : state) ifs, nonempty_vals (members_of s ifs).
+  Proof.
+    intros s ifs. unfold members_of.
+    assert (P : forall l m, nonempty_vals m -> nonempty_vals (fold_left push_member l m)).
+    { induction l as [|[n d] l IH]; intros m U; [exact U|]. simpl. apply IH.
+      intros n' dl H. apply upd_In in H. destruct H as [H|H]; [|eapply U; exact H].
+      inversion H. destruct (assoc n m) as [l0|]; [destruct l0|]; discriminate. }
+    assert (G : forall l m, nonempty_vals m -> nonempty_vals (fold_left (fun m i => match assoc i (st_if s) with
+                          | Some f => fold_left push_member (if_members f) m | None => m end) l m)).
+    { induction l as [|i l IH]; intros m U; [exact U|]. simpl. apply IH.
+      destruct (assoc i (st_if s)); [apply P; exact U | exact U]. }
+    apply G. intros n dl [].
+  Qed.
+
+  (** a name is a member name of the implemented interfaces iff some interface declares it *)
+  Lemma member_name_iff : forall (s : state) ifs n,
+    has_key n (members_of s ifs) = true <->
+    exists j f d, In j ifs /\ assoc j (st_if s) = Some f /\ In (n, d) (if_members f).
+  Proof.
+    intros s ifs n. split.
+    - intro H. apply has_key_true in H. destruct H as [dl A].
+      pose proof (members_of_nonempty s ifs n dl (assoc_In _ _ _ _ A)) as NE.
+      destruct dl as [|d dl]; [contradiction|].
+      assert (X : In d (getl n (members_of s ifs))) by (unfold getl; rewrite A; left; reflexivity).
+      apply members_of_spec in X. destruct X as [j [f X]]. exists j, f, d. exact X.
+    - intros [j [f [d X]]].
+      assert (Y : In d (getl n (members_of s ifs))) by (apply members_of_spec; exists j, f; exact X).
+      unfold getl in Y. unfold has_key. destruct (assoc n (members_of s ifs)); [reflexivity | destruct Y].
+  Qed.
+
+  Theorem implement_rejected_iff : forall (s : state) ifs als prov,
+    implement s ifs als prov = None <->
+    (exists n i, In (n, i) prov /\ has_key n (members_of s ifs) = false) \/
+    (exists n dl d, In (n, dl) (members_of s ifs) /\ In d dl /\ is_abstract s d = true /\ assoc n prov = None).
+  Proof.
+    intros s ifs als prov. unfold implement.
+    destruct (forallb (fun p => has_key (fst p) (members_of s ifs)) prov) eqn:F; simpl.
+    - destruct (existsb (fun m => existsb (is_abstract s) (snd m) && negb (has_key (fst m) prov)) (members_of s ifs)) eqn:X.
+      + split; [intros _|reflexivity]. right. apply existsb_exists in X. destruct X as [[n dl] [H1 H2]].
+        simpl in H2. apply andb_true_iff in H2. destruct H2 as [H2 H3]. apply existsb_exists in H2.
+        destruct H2 as [d [H4 H5]]. apply negb_true_iff in H3. apply has_key_false in H3.
+        exists n, dl, d. repeat split; assumption.
+      + split; [discriminate|]. intros [[n [i [H1 H3]]]|[n [dl [d [H1 [H2 [H3 H4]]]]]]].
+        * rewrite forallb_forall in F. specialize (F (n, i) H1). simpl in F. congruence.
+        * exfalso. assert (Y : existsb (fun m => existsb (is_abstract s) (snd m) && negb (has_key (fst m) prov)) (members_of s ifs) = true).
+          { apply existsb_exists. exists (n, dl). split; [exact H1|]. simpl. apply andb_true_iff. split.
+            - apply existsb_exists. exists d. split; assumption.
+            - apply negb_true_iff. apply has_key_false. exact H4. }
+          congruence.
+    - split; [intros _|reflexivity]. left.
+      assert (Y : exists p, In p prov /\ has_key (fst p) (members_of s ifs) = false).
+      { clear -F. induction prov as [|p prov IH]; simpl in F; [discriminate|].
+        apply andb_false_iff in F. destruct F as [F|F].
+        - exists p. split; [left; reflexivity | exact F].
+        - destruct (IH F) as [q [A B]]. exists q. split; [right; exact A | exact B]. }
+      destruct Y as [[n i] [H1 H2]]. exists n, i. split; assumption.
+  Qed.
+
+  (** ** accepted: the tables afterwards *)
+  Theorem implement_accepted : forall fuel ifs als prov s s',
+    wf s -> STEP cfg_now fuel (OImplement ifs als prov) s = Some (ObOk, s') ->
+    let regs := regs_of (members_of s ifs) als prov in
+    s' = apply_regs s regs /\
+    forall d a, binding s' d a =
+      match last_reg s d a regs None with Some i => Some i | None => binding s d a end.
+  Proof.
+    intros fuel ifs als prov s s' W H. unfold step in H.
+    destruct (negb (forallb (fun i => has_key i (st_if s)) ifs)); [discriminate|]. simpl in H.
+    destruct (implement s ifs als prov) as [s1|] eqn:E; inversion H. subst s1.
+    pose proof (implement_regs _ _ _ _ _ E) as R. split; [exact R|].
+    intros d a. rewrite R. apply apply_regs_binding. exact W.
   Qed.
 End Sem.
